@@ -21,6 +21,7 @@ import (
 	"github.com/superfly/litefs"
 	lhttp "github.com/superfly/litefs/http"
 	"github.com/superfly/litefs/verifharness/core"
+	"github.com/superfly/litefs/verifharness/faults"
 	"github.com/superfly/litefs/verifharness/sim"
 )
 
@@ -150,6 +151,8 @@ func main() {
 	rep.Sample(cases[len(cases)/2])
 	exportDuringImport(rep, args.Seed)
 	namedDatabases(rep)
+	// failure paths (spec/Faults.tla): every call of the operation through the OS interface fails once
+	faults.Run(rep, args, faults.Select{Ops: []string{"import"}, Monitors: []string{"image", "export", "restart"}})
 	rep.Finish()
 }
 
